@@ -59,7 +59,7 @@ def run(tier, seed, rng):
         hists.append([(True, [dict(variant=a, forge_mtime=True)]), (True, [dict(variant=b, forge_mtime=True)]), (True, [dict(variant=a, forge_mtime=True)])])
         hists.append([(True, [dict(variant=a, forge_mtime=True)]), (False, [dict(variant=b, forge_mtime=True)]), (True, [dict(variant=a, forge_mtime=True)])])
     # random longer histories
-    for _ in range(40 if tier == 'quick' else 600):
+    for _ in range(40 if tier == 'quick' else 3000):
         h = []
         for _ in range(rng.randint(1, 3)):
             h.append((rng.random() < 0.5, [dict(variant=rng.choice(VARS), forge_mtime=rng.random() < 0.2) for _ in range(rng.randint(1, 4))]))
